@@ -2733,7 +2733,7 @@ def get_byte_map(string_map):
     
     # assign byte_map_key_lengths, byte_map_value
     total_bytes_keys = 0
-    byte_map_value = np.zeros(len(sorted_string_map), dtype=np.uint8)
+    byte_map_value = np.zeros(len(sorted_string_map), dtype=np.int64)
 
     for i, (length, _, v)  in enumerate(sorted_string_key):
         total_bytes_keys += length
